@@ -888,6 +888,64 @@ def desugar_conditional_statements(tree):
     walk(tree)
     return count[0]
 
+def synthesise_dataclass_constructors(tree):
+    """A @dataclass without a constructor of its own gets the constructor the decorator would write: one parameter per
+    annotated field, in order, with its default (``field(default_factory=F)`` reads as "F() when not given").  -> class names"""
+    out = []
+    for C in [c for c in ast.walk(tree) if isinstance(c, ast.ClassDef)]:
+        decs = [ast.unparse(d.func if isinstance(d, ast.Call) else d).split('.')[-1] for d in C.decorator_list]
+        if 'dataclass' not in decs or any(isinstance(m, ast.FunctionDef) and m.name == '__init__' for m in C.body):
+            continue
+        if any(isinstance(d, ast.Call) and any(k.arg == 'init' and isinstance(k.value, ast.Constant) and k.value.value is False for k in d.keywords)
+               for d in C.decorator_list):
+            continue
+        fields = [st for st in C.body if isinstance(st, ast.AnnAssign) and isinstance(st.target, ast.Name) and
+                  'ClassVar' not in ast.unparse(st.annotation)]
+        if not fields:
+            continue
+        args, defaults, body = [ast.arg(arg='self')], [], []
+        ok = True
+        for st in fields:
+            name = st.target.id
+            args.append(ast.arg(arg=name))
+            v = st.value
+            factory = None
+            if isinstance(v, ast.Call) and ast.unparse(v.func).split('.')[-1] == 'field':
+                kw = {k.arg: k.value for k in v.keywords}
+                if 'default_factory' in kw:
+                    factory = kw['default_factory']
+                    v = ast.Constant(value=None)
+                elif 'default' in kw:
+                    v = kw['default']
+                else:
+                    v = None
+            if v is not None:
+                defaults.append(v)
+            elif defaults:
+                ok = False
+            if factory is not None:
+                body.append(ast.If(test=ast.Compare(left=ast.Name(id=name, ctx=ast.Load()), ops=[ast.Is()], comparators=[ast.Constant(value=None)]),
+                                   body=[ast.Assign(targets=[ast.Name(id=name, ctx=ast.Store())], value=ast.Call(func=_clone(factory), args=[], keywords=[]))],
+                                   orelse=[]))
+            body.append(ast.Assign(targets=[ast.Attribute(value=ast.Name(id='self', ctx=ast.Load()), attr=name, ctx=ast.Store())],
+                                   value=ast.Name(id=name, ctx=ast.Load())))
+        if not ok:
+            continue
+        post = [m for m in C.body if isinstance(m, ast.FunctionDef) and m.name == '__post_init__']
+        if post:
+            body.append(ast.Expr(value=ast.Call(func=ast.Attribute(value=ast.Name(id='self', ctx=ast.Load()), attr='__post_init__', ctx=ast.Load()), args=[], keywords=[])))
+        init = ast.FunctionDef(name='__init__', args=ast.arguments(posonlyargs=[], args=args, vararg=None, kwonlyargs=[], kw_defaults=[], kwarg=None, defaults=defaults),
+                               body=body, decorator_list=[], returns=None, type_comment=None)
+        if hasattr(ast, 'TypeVar'):
+            init.type_params = []
+        ast.copy_location(init, C)
+        for x in ast.walk(init):
+            ast.copy_location(x, C)
+        ast.fix_missing_locations(init)
+        C.body.append(init)
+        out.append(C.name)
+    return out
+
 
 class FuncInfo:
     def __init__(self, module, node, cls=None, parent=None):
@@ -1013,6 +1071,7 @@ class Module:
             self.src = f.read()
         self.tree = repo.parsed(name)
         self.desugared = desugar_match(self.tree)
+        self.dataclasses = synthesise_dataclass_constructors(self.tree)
         self.conditionals = desugar_conditional_statements(self.tree)
         self.inlined_properties = inline_simple_properties(self.tree)
         self.flattened = flatten_single_use_bases(self.tree, repo.foreign_text(name))
@@ -1042,6 +1101,12 @@ class Module:
                     fi = FuncInfo(self, m, cls=ci)
                     ci.methods[m.name] = fi
                     self._register(fi)
+            # class-level aliases of methods:  a = b = method
+            for m in s.body:
+                if isinstance(m, ast.Assign) and isinstance(m.value, ast.Name) and m.value.id in ci.methods:
+                    for t in m.targets:
+                        if isinstance(t, ast.Name) and t.id not in ci.methods:
+                            ci.methods[t.id] = ci.methods[m.value.id]
         elif isinstance(s, (ast.FunctionDef, ast.AsyncFunctionDef)):
             fi = FuncInfo(self, s)
             self.functions[s.name] = fi
